@@ -38,6 +38,10 @@ pub enum EStep {
     Remote { e: Ent, status: u8, peer: u8, bad_sig: bool },
     Message { es: Vec<Ent>, status: u8, peer: u8, bad: Option<u8> },
     SetPolicy { p: PolicySpec },
+    /// traffic on a second document of the same store (own subscriber, own policy)
+    OtherRemote { e: Ent, status: u8, peer: u8 },
+    OtherLocal { a: u8, #[serde(with = "hexbytes")] k: Vec<u8>, c: u8 },
+    OtherPolicy { p: PolicySpec },
     Tick { dt: u64 },
     Await,
 }
@@ -95,6 +99,8 @@ impl Scenario for Events {
         let n = rng.urange(4, tier.pick(30, 45));
         let mut steps = Vec::new();
         let mut subs = 0u8;
+        // half of the runs have traffic on a neighbouring document as well
+        let other = rng.chance(1, 2);
         for _ in 0..rng.urange(0, 2) {
             steps.push(EStep::Subscribe { cap: *rng.pick(&[1u8, 1, 2, 4, 32]), via_open: rng.chance(1, 2) });
             subs += 1;
@@ -121,6 +127,11 @@ impl Scenario for Events {
                     EStep::Message { es, status: rng.below(3) as u8, peer: rng.below(3) as u8, bad }
                 }
                 32 | 33 => EStep::SetPolicy { p: gen_policy(rng) },
+                36 | 37 if other => match rng.below(4) {
+                    0 => EStep::OtherLocal { a: rng.below(2) as u8, k: key(rng), c: rng.range(1, 3) as u8 },
+                    1 => EStep::OtherPolicy { p: gen_policy(rng) },
+                    _ => EStep::OtherRemote { e: gen_ent(rng, &g), status: rng.below(3) as u8, peer: rng.below(3) as u8 },
+                },
                 34 | 35 if self.only_download => EStep::SetPolicy { p: gen_policy(rng) },
                 34 | 35 => EStep::Tick { dt: rng.range(1, 4) },
                 _ => EStep::Await,
@@ -147,7 +158,7 @@ impl Scenario for Events {
     }
 
     fn rule(&self) -> String {
-        "A run is 4-45 steps on one document: subscribe (channel capacity 1-32, via open or subscribe), unsubscribe, drop a receiver (also while the actor is blocked sending to it), pause/resume/drain, local inserts and deletions, valid/superseded/badly-signed remote inserts, reconciliation messages of 1-4 entries (optionally one forged) interleaved with local writes, policy changes, clock ticks. Non-trivial: a receiver was dropped/unsubscribed/paused, the actor blocked on a full channel, or an entry was rejected.".into()
+        "A run is 4-45 steps on one document (in half of the runs a neighbouring document of the same store, with its own subscriber and policy, takes remote and local writes and policy changes in between and is judged the same way): subscribe (channel capacity 1-32, via open or subscribe), unsubscribe, drop a receiver (also while the actor is blocked sending to it), pause/resume/drain, local inserts and deletions, valid/superseded/badly-signed remote inserts, reconciliation messages of 1-4 entries (optionally one forged) interleaved with local writes, policy changes, clock ticks. Non-trivial: a receiver was dropped/unsubscribed/paused, the actor blocked on a full channel, or an entry was rejected.".into()
     }
 }
 
@@ -234,6 +245,7 @@ async fn run(plan: &EventsPlan, cx: &mut Cx, only_download: bool) -> Res {
     let ns = w.doc_id(0);
     let mut sut = Sut::new(Backend::Mem)?;
     ensure_doc(sut.store(), 0)?;
+    ensure_doc(sut.store(), 1)?;
     for a in 0..2 {
         sut.store().import_author(w.authors[a].clone()).map_err(|e| harness(format!("{e:#}")))?;
     }
@@ -247,6 +259,12 @@ async fn run(plan: &EventsPlan, cx: &mut Cx, only_download: bool) -> Res {
     let mut policy: Option<PolicySpec> = None;
     let mut applied: Vec<Applied> = Vec::new();
     let mut subs: Vec<Sub> = Vec::new();
+    // the neighbouring document: opened and subscribed lazily by the first step that uses it
+    let ns1 = w.doc_id(1);
+    let mut model1 = RefDoc::default();
+    let mut policy1: Option<PolicySpec> = None;
+    let mut applied1: Vec<Applied> = Vec::new();
+    let mut other_sub: Option<Sub> = None;
     type PendFut = Pin<Box<dyn Future<Output = Result<(), String>>>>;
     let mut pending: Vec<(String, PendFut, Option<bool>)> = Vec::new();
     let mut policy_reads: Vec<usize> = Vec::new();
@@ -263,6 +281,14 @@ async fn run(plan: &EventsPlan, cx: &mut Cx, only_download: bool) -> Res {
                     if s.paused {
                         continue;
                     }
+                    if let Some(rx) = &s.rx {
+                        while let Ok(ev) = rx.try_recv() {
+                            s.got.push(ev);
+                            progressed = true;
+                        }
+                    }
+                }
+                if let Some(s) = other_sub.as_mut() {
                     if let Some(rx) = &s.rx {
                         while let Ok(ev) = rx.try_recv() {
                             s.got.push(ev);
@@ -512,6 +538,59 @@ async fn run(plan: &EventsPlan, cx: &mut Cx, only_download: bool) -> Res {
                     policy_reads.push(pending.len() - 1);
                 }
             }
+            EStep::OtherRemote { .. } | EStep::OtherLocal { .. } | EStep::OtherPolicy { .. } => {
+                if other_sub.is_none() {
+                    let (tx, rx) = async_channel::bounded::<Event>(64);
+                    // queued like every other request (the actor may be blocked on a paused subscriber)
+                    let (h3, tx3) = (h.clone(), tx.clone());
+                    let mut fut: PendFut = Box::pin(async move { h3.open(ns1, OpenOpts::default().sync().subscribe(tx3)).await.map_err(|e| format!("{e:#}")) });
+                    let _ = poll_once(&mut fut);
+                    pending.push(("open-neighbour".into(), fut, Some(true)));
+                    other_sub = Some(Sub { tx, rx: Some(rx), got: vec![], paused: false, start: 0, end: None, dropped: false });
+                    cx.probe("neighbour_document_in_use");
+                }
+                let h2 = h.clone();
+                match step {
+                    EStep::OtherRemote { e, status, peer } => {
+                        let mut e = e.clone();
+                        e.d = 1;
+                        let from = w.peers[*peer as usize];
+                        let signed = e.signed();
+                        let ok = model1.offer(&e).is_some();
+                        if ok {
+                            let download = policy1.as_ref().map(|p| p.selects(&e.k)).unwrap_or(true);
+                            applied1.push(Applied { entry: signed.clone(), local: false, from, status: *status, download });
+                        }
+                        let st = status_of(*status);
+                        let mut fut: PendFut = Box::pin(async move { h2.insert_remote(ns1, signed, from, st).await.map_err(|e| format!("{e:#}")) });
+                        let _ = poll_once(&mut fut);
+                        pending.push(("insert-remote-neighbour".into(), fut, Some(ok)));
+                        cx.ev("other-remote", e.short());
+                    }
+                    EStep::OtherLocal { a, k, c } => {
+                        let e = Ent { d: 1, a: *a, k: k.clone(), ts: clock, c: *c };
+                        let ok = model1.offer(&e).is_some();
+                        if ok {
+                            applied1.push(Applied { entry: e.signed(), local: true, from: [0; 32], status: 0, download: true });
+                        }
+                        let (hash, len) = content(*c);
+                        let (a2, k2) = (w.author_id(*a), k.clone());
+                        let mut fut: PendFut = Box::pin(async move { h2.insert_local(ns1, a2, k2.into(), hash, len).await.map_err(|e| format!("{e:#}")) });
+                        let _ = poll_once(&mut fut);
+                        pending.push(("insert-local-neighbour".into(), fut, Some(ok)));
+                        cx.ev("other-local", e.short());
+                    }
+                    EStep::OtherPolicy { p } => {
+                        let real = p.real();
+                        let mut fut: PendFut = Box::pin(async move { h2.set_download_policy(ns1, real).await.map_err(|e| format!("{e:#}")) });
+                        let _ = poll_once(&mut fut);
+                        pending.push(("set-policy-neighbour".into(), fut, Some(true)));
+                        policy1 = Some(p.clone());
+                        cx.ev("other-policy", format!("{p:?}"));
+                    }
+                    _ => unreachable!(),
+                }
+            }
             EStep::Tick { dt } => {
                 // a tick must not overtake requests already queued (they read the clock when processed)
                 settle!();
@@ -522,6 +601,9 @@ async fn run(plan: &EventsPlan, cx: &mut Cx, only_download: bool) -> Res {
                 settle!();
                 for (i, s) in subs.iter().enumerate() {
                     check_sub(i, s, &applied, ns, false, only_download)?;
+                }
+                if let Some(s) = &other_sub {
+                    check_sub(100, s, &applied1, ns1, false, only_download)?;
                 }
             }
         }
@@ -538,6 +620,15 @@ async fn run(plan: &EventsPlan, cx: &mut Cx, only_download: bool) -> Res {
     }
     for (i, s) in subs.iter().enumerate() {
         check_sub(i, s, &applied, ns, true, only_download)?;
+    }
+    if let Some(s) = other_sub.as_mut() {
+        if let Some(rx) = &s.rx {
+            while let Ok(ev) = rx.try_recv() {
+                s.got.push(ev);
+            }
+        }
+        // subscriber 100 = the one on the neighbouring document
+        check_sub(100, s, &applied1, ns1, true, only_download)?;
     }
     let _ = &policy_reads;
     cx.state(crate::rng::fnv(format!("{}:{}", applied.len(), subs.len()).as_bytes()));
